@@ -78,4 +78,7 @@ RotationFree == (stage = 2 /\ scene.circ) =>
     \A k \in {1, 3, scene.L - 1} : \A j \in DOMAIN rules :
         /\ AnchorSet(Rot(scene, k), rules[j]) = AnchorSet(scene, rules[j])
         /\ Chains(Rot(scene, k), rules[j].cutoff, AnchorSet(scene, rules[j])) = Chains(scene, rules[j].cutoff, AnchorSet(scene, rules[j]))
+(* the repaired apply_cluster_rules design computes the documented anchors; the stale-flag design does not *)
+RepairedCacheDesign == stage = 2 => \A k \in DOMAIN rules : ImplAnchors(scene, rules, k, FALSE) = AnchorSet(scene, rules[k])
+StaleCacheDesign == stage = 2 => \A k \in DOMAIN rules : ImplAnchors(scene, rules, k, TRUE) = AnchorSet(scene, rules[k])
 =============================================================================
